@@ -38,6 +38,48 @@ FORBIDDEN = re.compile(
     r"type-in-type|impredicative-set)\b"
 )
 
+
+def strip_coq(txt: str, blank_strings: bool = True) -> str:
+    """Remove Coq comments the way Coq's lexer does: comments nest, and a string literal
+    (inside or outside a comment) hides comment delimiters ("" is an escaped quote).  With
+    blank_strings the contents of string literals outside comments are emptied too, so the
+    forbidden-vernacular scan sees exactly the vernacular."""
+    out = []
+    i, n, depth = 0, len(txt), 0
+    while i < n:
+        c = txt[i]
+        if c == '"':
+            j = i + 1
+            while j < n:
+                if txt[j] == '"':
+                    if j + 1 < n and txt[j + 1] == '"':
+                        j += 2
+                        continue
+                    break
+                j += 1
+            if depth == 0:
+                out.append('""' if blank_strings else txt[i:j + 1])
+            i = j + 1
+        elif txt.startswith("(*", i):
+            depth += 1
+            i += 2
+        elif depth > 0 and txt.startswith("*)", i):
+            depth -= 1
+            i += 2
+            if depth == 0:
+                out.append(" ")
+        else:
+            if depth == 0:
+                out.append(c)
+            elif c == "\n":
+                out.append("\n")
+            i += 1
+    return "".join(out)
+
+
+def forbidden_in(txt: str) -> list[str]:
+    return [m.group(0) for m in FORBIDDEN.finditer(strip_coq(txt))]
+
 KERNEL_TB = [
     "Coq 8.16.1 kernel (coqc, full .vo build, vm_compute; no native_compute)",
     "no Axiom/Parameter/Admitted in /verif/coq (grep gate + Print Assumptions under every property theorem)",
@@ -152,6 +194,7 @@ class Ctx:
         if ok:
             self.discharged += 1
         else:
+            self.failed_obligations = getattr(self, "failed_obligations", []) + [f"{name} {detail[:300]}"]
             self.log(f"OBLIGATION FAILED: {name} {detail[:2000]}")
         return ok
 
@@ -192,7 +235,7 @@ class Ctx:
             if f in seen or not f.exists():
                 continue
             seen[f] = None
-            txt = re.sub(r"\(\*.*?\*\)", "", f.read_text(), flags=re.S)
+            txt = strip_coq(f.read_text())
             mods = []
             for m in re.finditer(r"From\s+Splinkv\s+Require\s+(?:Import\s+|Export\s+)?([^.]*(?:\.[A-Za-z][^.]*)*?)\.\s", txt):
                 mods += m.group(1).split()
@@ -209,7 +252,7 @@ class Ctx:
         files = self.cone(relpath) if relpath else list((COQ / "theories").rglob("*.v"))
         self.cov["coq_files_in_cone"] = sorted(str(f.relative_to(COQ)) for f in files)
         for p in files + list(GEN.glob(f"{self.pid}_*.v")):
-            txt = re.sub(r"\(\*.*?\*\)", "", p.read_text(), flags=re.S)
+            txt = strip_coq(p.read_text())
             for m in FORBIDDEN.finditer(txt):
                 bad.append(f"{p}:{m.group(0)}")
             if re.search(r"^\s*(Variable|Variables|Hypothesis|Hypotheses|Context)\b", txt, flags=re.M):
@@ -231,7 +274,7 @@ class Ctx:
         p = COQ / "theories" / relpath
         rc, out, dt = sh(["timeout", "600", "coqc", *COQ_FLAGS, str(p)], cwd=COQ, timeout=700)
         self.checker_cmds.append(f"coqc -Q theories Splinkv theories/{relpath}")
-        txt = re.sub(r"\(\*.*?\*\)", "", p.read_text(), flags=re.S)
+        txt = strip_coq(p.read_text())
         thms = re.findall(r"^\s*(?:Theorem|Lemma|Example|Corollary)\s+([A-Za-z0-9_']+)", txt, flags=re.M)
         blocks = []
         if rc == 0:
@@ -245,17 +288,23 @@ class Ctx:
                     cur = []
                     blocks.append(cur)
                 elif cur is not None and line.strip():
-                    cur.append(line.strip())
-            blocks = [b if isinstance(b, str) else "Axioms: " + " | ".join(b) for b in blocks]
+                    if line[0].isspace() and cur:  # wrapped type of the previous axiom
+                        cur[-1] += " " + line.strip()
+                    else:
+                        cur.append(line.strip())
+            blocks = [b if isinstance(b, str) else "Axioms: " + " ;; ".join(b) for b in blocks]
         else:
             self.log(f"coqc {relpath} FAILED\n" + out[-3000:])
         return rc == 0, len(thms), blocks
 
-    ALLOWED_AXIOMS = (
-        "ClassicalDedekindReals.sig_forall_dec", "ClassicalDedekindReals.sig_not_dec",
-        "FunctionalExtensionality.functional_extensionality_dep", "Classical_Prop.classic",
-        "functional_extensionality_dep", "sig_forall_dec", "sig_not_dec", "classic",
+    ALLOWED_AXIOMS_FQ = (
+        "Coq.Reals.ClassicalDedekindReals.sig_forall_dec", "Coq.Reals.ClassicalDedekindReals.sig_not_dec",
+        "Coq.Logic.FunctionalExtensionality.functional_extensionality_dep", "Coq.Logic.Classical_Prop.classic",
     )
+    # Print Assumptions prints the shortest unambiguous qualified name: accept exactly the
+    # dot-suffixes of the fully qualified standard-library names (never a mere string suffix)
+    ALLOWED_AXIOMS = frozenset(".".join(fq.split(".")[k:]) for fq in ALLOWED_AXIOMS_FQ
+                               for k in range(len(fq.split("."))))
 
     def proof_stage(self, propfile: str) -> bool:
         """gate + build theories + compile property file; records obligations."""
@@ -268,14 +317,21 @@ class Ctx:
         if ok:
             self.discharged += n
         self.assumptions += blocks
+        # every Theorem/Lemma/Corollary of a property file reports its assumptions
+        ptxt = strip_coq((COQ / "theories" / propfile).read_text())
+        nthm = len(re.findall(r"^\s*(?:Theorem|Lemma|Corollary)\s+[A-Za-z0-9_']+", ptxt, flags=re.M))
+        npa = len(re.findall(r"^\s*Print\s+Assumptions\s+[A-Za-z0-9_'.]+\s*\.", ptxt, flags=re.M))
+        if ok:
+            self.obligation(f"Print Assumptions under every theorem of {propfile}", npa >= nthm and len(blocks) >= nthm,
+                            f"{nthm} theorems, {npa} Print Assumptions commands, {len(blocks)} reports")
         # every axiom line must be a named stdlib axiom
         okax = True
         for b in blocks:
             if b.startswith("Axioms:"):
-                for item in b[len("Axioms:"):].split("|"):
+                for item in b[len("Axioms:"):].split(";;"):
                     item = item.strip()
                     m = re.match(r"([A-Za-z0-9_.']+)\s*:", item)
-                    if m and not any(m.group(1).endswith(a) for a in self.ALLOWED_AXIOMS):
+                    if not m or m.group(1) not in self.ALLOWED_AXIOMS:
                         okax = False
                         self.log("unexpected axiom:", item)
         self.obligation("axioms limited to named stdlib axioms", okax)
@@ -292,6 +348,11 @@ class Ctx:
         lock = open(str(f) + ".lock", "w")
         fcntl.flock(lock, fcntl.LOCK_EX)  # generated files have fixed module names: serialise writers
         f.write_text(text)
+        fb = forbidden_in(text)
+        if fb:
+            fcntl.flock(lock, fcntl.LOCK_UN)
+            lock.close()
+            return False, f"forbidden vernacular in generated file {f.name}: {fb[:5]}"
         try:
             rc, out, dt = sh(["timeout", str(timeout), "coqc", *COQ_FLAGS, str(f)], cwd=COQ, timeout=timeout + 30)
         finally:
@@ -312,6 +373,9 @@ class Ctx:
                     'Eval vm_compute in (map fst bad).', ""]
             f = CASES / f"{name}_p{os.getpid()}_{k}.v"  # pid: concurrent runs of one check must not collide
             f.write_text("\n".join(body))
+            fb = forbidden_in("\n".join(body))
+            if fb:
+                return [], [f"forbidden vernacular in generated case file {f.name}: {fb[:5]}"]
             files.append(f)
         bad: list[int] = []
         errs: list[str] = []
@@ -386,6 +450,12 @@ class Ctx:
 
     # -------------------------------------------------------------- finish
     def finish(self) -> int:
+        if self.discharged < self.obligations and not self.violations:
+            # a failed proof obligation / correspondence that no stage turned into a report:
+            # the property is no longer shown to hold
+            failed = getattr(self, "failed_obligations", [])[:20]
+            self.violation(f"{self.obligations - self.discharged} obligation(s) not discharged and no failing input found",
+                           {"broken": failed or "see log"}, {"undischarged": True}, found_input=False)
         wall = time.time() - self.t0
         cov = dict(self.cov)
         cov["obligations"] = self.obligations
